@@ -1,5 +1,6 @@
 import Indi.Properties.C03
 import Indi.Properties.Wire
+import Indi.Properties.Spellings
 #print axioms Indi.C03_roundtrip
 #print axioms Indi.C03_fixed_point
 #print axioms Indi.C03_fixed_point_counterexample
@@ -11,3 +12,7 @@ import Indi.Properties.Wire
 #print axioms Indi.Xml.wireSafe_canon
 #print axioms Indi.Xml.toString_fixed_point
 #print axioms Indi.Xml.generated_prefix_ok
+#print axioms Indi.Xml.run_spellElem
+#print axioms Indi.Xml.parseDoc_spell
+#print axioms Indi.Xml.fromXml_spelled
+#print axioms Indi.Xml.fromString_spelling
